@@ -84,11 +84,12 @@ Definition same_files (pred obs : list (str * list Z)) : bool :=
 Definition corr_ocli (c : ocli) : bool :=
   let cwd := str_of (cc_cwd c) in
   let emitted := flat_map (fun src =>
-      let fname := source_name cwd (str_of (fst src)) in
+      let fname := fold_left (fun name op => included_name (str_of op) name) (snd (fst src))
+                             (source_name cwd (str_of (fst (fst src)))) in
       map (fun d => match d with (k, p, t) =>
              emit_directive (directive_of k) (option_map str_of p) (option_map str_of t) fname end) (snd src))
       (cc_sources c) in
-  let first := match cc_sources c with src :: _ => source_name cwd (str_of (fst src)) | [] => [] end in
+  let first := match cc_sources c with src :: _ => source_name cwd (str_of (fst (fst src))) | [] => [] end in
   let obs := map (fun kv => (str_of (fst kv), expand_rep (snd kv))) (cc_obs_files c) in
   let obs_out := expand_rep (cc_obs_stdout c) in
   match cli_outputs first emitted (option_map str_of (cc_outfile c)) (cc_implicit_bin c) with
